@@ -187,7 +187,7 @@ def distinct_nontrivial(lines):
         a = l["act"]
         nontrivial = (a["name"] != "Run") or bool(a["plan"])
         if nontrivial:
-            seen.add(json.dumps([l["pre"]["art"], l["pre"]["cfgc"], l["pre"]["cfgNewer"], l["pre"]["mt"], l["pre"]["par"], a], sort_keys=True))
+            seen.add(json.dumps([l["pre"]["art"], l["pre"].get("usesp"), l["pre"]["cfgc"], l["pre"]["cfgNewer"], l["pre"]["mt"], l["pre"]["par"], a], sort_keys=True))
     return len(seen)
 
 
